@@ -372,6 +372,15 @@ func c18Scope(c *mon.Ctx, r *mon.Rand) {
 	st := &recStatter{}
 	rep := tstatsd.NewReporter(st, tstatsd.Options{HistogramBucketNamePrecision: prec})
 	prefix := r.Pick("", "svc", "a.b")
+	// half of the histories: the reporter is shared with another root scope
+	// which is closed before this one starts recording (closing a scope is not
+	// closing the reporter's client for everybody else)
+	sharedThenClosed := r.Bool()
+	if sharedThenClosed {
+		other, oc := vNewRoot(tally.ScopeOptions{Prefix: "other", Reporter: rep, OmitCardinalityMetrics: true}, 0, 1)
+		other.Counter("c").Inc(1)
+		oc.Close()
+	}
 	root, _ := vNewRoot(tally.ScopeOptions{Prefix: prefix, Reporter: rep, OmitCardinalityMetrics: true}, 0, uint(r.Range(0, 2)))
 	sc := root
 	full := prefix
@@ -389,7 +398,7 @@ func c18Scope(c *mon.Ctx, r *mon.Rand) {
 	}
 	var ops []string
 	desc := func() interface{} {
-		return map[string]interface{}{"mode": "scope", "prefix": full, "precision": prec, "value_spec": vspec, "duration_spec": fmt.Sprint(dspec), "ops": ops}
+		return map[string]interface{}{"mode": "scope", "prefix": full, "reporter_shared_with_a_root_closed_earlier": sharedThenClosed, "precision": prec, "value_spec": vspec, "duration_spec": fmt.Sprint(dspec), "ops": ops}
 	}
 	c.Eval(1)
 	name := mon.RefName(full, ".", "h")
